@@ -2354,9 +2354,12 @@ class RedunBackendDb(RedunBackend):
                 task_hash, args_hash, scheduler_task_hashes, context_hash
             )
             if call_node2:
-                call_hash = cast(str, call_node2.call_hash)
-                result, is_cached = self.get_call_cache(call_hash)
-                cache_type = CacheResult.ULTIMATE
+                result, is_cached = self.get_call_cache(cast(str, call_node2.call_hash))
+                if is_cached:
+                    # Only report the CallNode if its result could be loaded. Otherwise, we may
+                    # fall back to single reduction, which has to record its own CallNode.
+                    call_hash = cast(str, call_node2.call_hash)
+                    cache_type = CacheResult.ULTIMATE
 
         if (
             not is_cached
